@@ -1549,6 +1549,10 @@ class Interp:
         if isinstance(obj, tuple) and name in ('index', 'count') and is_concrete(args[0]):
             return getattr(obj, name)(*args)
         if isinstance(obj, OpaqueStr):
+            if self.reg:
+                hook = self.reg.value_method(obj, name)
+                if hook:
+                    return hook(self, obj, args, kwargs)
             if name in ('strip', 'rstrip', 'lstrip', 'format', 'upper', 'lower'):
                 return OpaqueStr(obj.parts)
         if self.reg:
